@@ -129,6 +129,9 @@ def gen_ref(rng, case):
         for t in g.txs:
             if 'cds_start_NF' not in t.tags and rng.random() < 0.35:
                 t.tags.append('cds_start_NF')
+            elif 'cds_start_NF' not in t.tags and 'mRNA_start_NF' not in t.tags and rng.random() < 0.3:
+                # the mRNA tag WITHOUT the CDS tag: the 5' boundary rule follows cds_start_NF only
+                t.tags.append('mRNA_start_NF')
     return a
 
 
@@ -604,6 +607,88 @@ def cli_check(ctx, a, R, g, t, rows, direct, viol, rng):
         shutil.rmtree(tmp, ignore_errors=True)
 
 
+def vep_history(ctx, i):
+    """ONE parse_vep run (--skip-failed) over a VEP file that walks through 12-18 genes — more than
+    the on-disk annotation keeps loaded at a time —, revisits some of them and carries rows whose
+    Gene column is not in the annotation (a gene-version mismatch between the VEP cache and the
+    GTF): the GVF must hold exactly the records of the valid rows, each as converted on its own
+    with the fully loaded annotation (whose results the `vep` stream ties to the Lean model)."""
+    from moPepGen import cli, seqvar
+    rng = ctx.rng('vephist', i)
+    a = c11.gen_annotation(rng, ngenes=rng.randint(12, 18), case=i)
+    tmp = tempfile.mkdtemp(prefix='c14h_')
+    R = None
+    try:
+        R = load_ref(a, tmp)
+        visits = list(a.genes)
+        rng.shuffle(visits)
+        visits += [rng.choice(a.genes) for _ in range(rng.randint(3, 10))]
+        lines, want, n_unknown = [], [], 0
+        exp = {'total': 0, 'succeed': 0, 'failed': 0}
+        for vi, g in enumerate(visits):
+            if vi == 0 or rng.random() < 0.15:
+                # unknown gene id, known transcript id
+                t = rng.choice(g.txs)
+                g2 = copy.copy(g)
+                g2.id = g.id.split('.')[0] + '.77' if '.' in g.id else g.id + 'X'
+                p_ = rng.randint(t.exons[0][0] + 1, t.exons[0][1])
+                lines.append(vep_line(g2, t, p_, p_, rng.choice('ACGT')))
+                exp['total'] += 1
+                exp['failed'] += 1
+                n_unknown += 1
+            t = rng.choice(g.txs)
+            rows = gen_rows(rng, a, g, t, True)
+            for kind, s_, e_, al in rng.sample(rows, min(len(rows), rng.randint(1, 3))):
+                exp['total'] += 1
+                try:
+                    r = mk_vep(g, t, s_, e_, al).convert_to_variant_record(R.full, R.genome)
+                    out = canon_rec(r)
+                except Exception as ex:   # noqa
+                    out = canon_exc(ex)
+                if out.startswith('ok'):
+                    exp['succeed'] += 1
+                    want.append((g.id, t.id, out.rsplit(',', 1)[0]))
+                else:
+                    exp['failed'] += 1
+                lines.append(vep_line(g, t, s_, e_, al))
+        vep_path = Path(tmp) / 'in.txt'
+        with open(vep_path, 'w') as fh:
+            fh.write('## VEP\n#Uploaded_variation\tLocation\tAllele\n' + '\n'.join(lines) + '\n')
+        args = vep_args(R, tmp, [vep_path], 'hist.gvf', True)
+        msgs, exc = run_cli(cli.parse_vep, args)
+        ctx.count('vep_history', 'runs')
+        ctx.count('vep_history', 'rows', len(lines))
+        ctx.count('vep_history', 'unknown_gene_rows', n_unknown)
+        ctx.count('vep_history', 'genes', len(a.genes))
+        ctx.evaluated('vep_history', str(i), True)
+        info = {'regenerate': f'vephist case {i}', 'gtf': a.gtf_text(), 'genome': dict(a.chroms),
+                'vep_rows': lines[:80]}
+        if exc is not None:
+            ctx.add_violation('parse_vep (--skip-failed) raised on a file that walks through many genes',
+                              dict(info, exception=repr(exc)))
+            return
+        got = tally_from(msgs, {'total': 'Totally records read', 'succeed':
+                                'Records successfully processed', 'failed': 'Records failed'})
+        have = []
+        if args.output_path.exists():
+            for r in seqvar.io.parse(str(args.output_path)):
+                have.append((r.location.seqname, r.attrs.get('TRANSCRIPT_ID'),
+                             canon_rec(r).rsplit(',', 1)[0]))
+        if sorted(have) != sorted(want):
+            miss = sorted(set(want) - set(have))
+            extra = sorted(set(have) - set(want))
+            ctx.add_violation('GVF written by parse_vep over a many-gene file differs from the per-record '
+                              'conversion: a valid event is missing or mis-placed',
+                              dict(info, missing=miss[:10], unexpected=extra[:10], tally=got, expected=exp))
+        elif got != exp:
+            ctx.add_violation('parse_vep tally over a many-gene file differs from the per-record results',
+                              dict(info, tally=got, expected=exp))
+    finally:
+        if R is not None:
+            close_ref(R)
+        shutil.rmtree(tmp, ignore_errors=True)
+
+
 # ------------------------------------------------------------------ REDItools
 def exonic(t, p0):
     return any(s <= p0 < e for s, e in t.exons)
@@ -1063,6 +1148,8 @@ def run(ctx: common.Ctx):
             annos.clear()
     for i in range(ctx.n(10, 120)):
         malformed(ctx, i, S, annos)
+    for i in range(ctx.n(25, 400)):
+        vep_history(ctx, i)
     flush(ctx, S, annos)
     ctx.assumptions += [
         'alleles and genome over ACGT(N); Bio.Seq slicing / reverse_complement modelled by '
